@@ -16,10 +16,10 @@ From Coq Require Import ZifyBool.
 Ltac Zify.zify_post_hook ::= Z.div_mod_to_equations.
 
 Lemma gen_clampInt_eq b lo hi : g_gcc_clampInt b lo hi = GccDecision.clampInt b lo hi.
-Proof. reflexivity. Qed.
+Proof. first [ reflexivity | gnorm; unfold GccDecision.clampInt; tie_cases ]. Qed.
 
 Lemma gen_transition_eq s u : g_gcc_state_transition s u = GccDecision.transition s u.
-Proof. reflexivity. Qed.
+Proof. first [ reflexivity | gnorm; unfold GccDecision.transition; tie_cases ]. Qed.
 
 (* lossBasedBandwidthEstimator.getEstimate: results LossStats{TargetBitrate, AverageLoss} followed by
    the new e.bitrate; minBitrate / maxBitrate as newLossBasedBWE sets them; the float64 averageLoss
@@ -28,6 +28,5 @@ Lemma gen_gcc_getEstimate_eq (F : Type) (avg : F) bitrate wanted :
   g_gcc_lossBasedBandwidthEstimator_getEstimate GccDecision.LOSS_MAX GccDecision.LOSS_MIN bitrate avg wanted =
     (GccDecision.get_estimate bitrate wanted, avg, GccDecision.get_estimate bitrate wanted).
 Proof.
-  unfold g_gcc_lossBasedBandwidthEstimator_getEstimate, GccDecision.get_estimate, g_gcc_clampInt, GccDecision.clampInt.
-  cbv zeta. destruct (bitrate <=? 0); reflexivity.
+  gnorm. unfold GccDecision.get_estimate, GccDecision.clampInt, GccDecision.LOSS_MAX, GccDecision.LOSS_MIN. tie_cases.
 Qed.
